@@ -73,7 +73,7 @@ theorem goAwayFromUser_cs {X : String → Prop} {c : Conn} (hi : GoAwayInv c) (e
     dsimp only
     rw [if_pos hok]
   rw [heq] at k ⊢
-  exact .mk' k rfl rfl rfl (.op1 (.handleError _) trivial rfl rfl rfl)
+  exact .mk' k rfl rfl rfl (.op1 (.handleError (PErr.goAway [] e .user)) (fun _ _ h => by cases h) rfl rfl rfl)
 
 -- ===================================================================== windows
 
